@@ -8,6 +8,9 @@ QUERIES = [
     vra={'MAXLOC': 1, 'MAXMSG': 14, 'MAXTHR': 2, 'MAXOBJ': 1},
     bounds='6 steps of producer increment_failure_counter / backend get_and_reset_failure_counter (relaxed load + exchange) under the release/acquire shim',
     what='sum of reported counts + residual == number of increments under every interleaving and every stale load'),
+  Q('drop_then_cstr', 'C08_dropping.cpp', 'h_drop_then_cstr', forbid=FORBID, models=['m_throw.c'], libmodels=['m_string.c', 'm_env.c'], unwind=14, byteloops=True, timeout=280,
+    bounds='64-byte dropping queue: a delivered record, a DISCARDED statement with two symbolic C strings (0..5 bytes), a backend read, then a delivered statement with one symbolic C string',
+    what='a discarded statement leaves no trace in the per-thread size cache: the next statement is sized, written and decoded with its own string length and bytes'),
   Q('callsite_return', 'C11_frontend.cpp', 'h_log_arith', forbid=[r'^_ZN8fmtquill', r'^_ZNK8fmtquill', r'get_local_thread_context'], models=['m_throw.c'], libmodels=['m_string.c', 'm_env.c'], unwind=14,
     bounds='one statement of 70 bytes against a 128-byte dropping queue with 0..128 bytes still unread, at any position', what='return value <=> fits; rejected call leaves the queue untouched and counts exactly one failure'),
 ]
